@@ -29,14 +29,16 @@ from .model import walk_no_nested
 MUTATORS = {"append", "extend", "insert", "add", "update", "setdefault", "pop", "popitem", "remove", "discard", "clear",
             "sort", "reverse", "appendleft", "extendleft", "popleft", "move_to_end", "__setitem__", "__delitem__"}
 CONTAINER_CALLS = {"dict", "list", "set", "defaultdict", "OrderedDict", "deque", "Counter", "bytearray", "WeakValueDictionary",
-                   "WeakKeyDictionary", "ChainMap"}
+                   "WeakKeyDictionary", "ChainMap",
+                   # iterator objects are state as well: every next() advances them for the rest of the process
+                   "count", "cycle", "iter", "chain", "repeat", "islice"}
 TRANSPARENT_DECORATORS = {"staticmethod", "classmethod", "property", "abstractmethod", "overload", "final", "wraps", "setter", "getter",
                           "deleter", "dataclass", "total_ordering", "contextmanager", "unique", "abstractproperty", "override"}
 CACHE_DECORATORS = {"lru_cache", "cache", "cached_property"}
 
 
 def is_container_expr(e):
-    if isinstance(e, (ast.Dict, ast.List, ast.Set, ast.ListComp, ast.DictComp, ast.SetComp)):
+    if isinstance(e, (ast.Dict, ast.List, ast.Set, ast.ListComp, ast.DictComp, ast.SetComp, ast.GeneratorExp)):
         return True
     if isinstance(e, ast.Call):
         f = e.func
@@ -120,6 +122,10 @@ def _mutations(fn):
                         yield tt, "rebind", n
         elif isinstance(n, ast.Call) and isinstance(n.func, ast.Attribute) and n.func.attr in MUTATORS:
             yield _target_root(n.func.value), "call:" + n.func.attr, n
+        elif isinstance(n, ast.Call) and isinstance(n.func, ast.Name) and n.func.id == "next" and n.args:
+            yield _target_root(n.args[0]), "call:next", n
+        elif isinstance(n, ast.Call) and isinstance(n.func, ast.Attribute) and n.func.attr == "__next__":
+            yield _target_root(n.func.value), "call:next", n
 
 
 class Scanner:
@@ -477,6 +483,14 @@ def relevant_sites(repo, root_funcs, cg=None, module_scope=()):
     return out, closure
 
 
+# entry points whose call closure is part of a property's scope although the rule itself does not evaluate them
+EXTRA_ROOTS = {
+    # C22 is about the text a whole decompilation produces: anything the decompiler entry points reach can make it history dependent
+    "C22": [("androguard/decompiler/decompile.py", "DvMethod.process"), ("androguard/decompiler/decompile.py", "DvClass.process"),
+            ("androguard/decompiler/decompile.py", "DvMethod.get_source"), ("androguard/decompiler/decompile.py", "DvClass.get_source")],
+}
+
+
 def roots_of(ctx, cg):
     """(Func objects of the analysed functions the call graph knows, relpaths of modules holding analysed functions it does not know
     -- methods of nested classes, nested functions: for those the whole module is taken as the scope)"""
@@ -491,6 +505,15 @@ def roots_of(ctx, cg):
             out.append(f)
         else:
             loose.add(rel)
+    for rel, q in EXTRA_ROOTS.get(ctx.prop, ()):
+        try:
+            f = cg.func(rel, q)
+        except Exception:
+            f = None
+        if f is None:
+            from .model import AnalysisError
+            raise AnalysisError("history-independence pass: entry point %s:%s vanished" % (rel, q))
+        out.append(f)
     return out, loose
 
 
